@@ -372,6 +372,15 @@ pub fn mutate_last_state_proof(
 }
 
 pub fn mutate_digest(rng: &mut Rng, d: &packed::HeaderDigest) -> (packed::HeaderDigest, &'static str) {
+    // never a no-op: e.g. "end_number -> 0" on the digest of the genesis leaf would hand back the honest item under an INVALID label
+    let (m, name) = mutate_digest_once(rng, d);
+    if m.as_slice() != d.as_slice() {
+        return (m, name);
+    }
+    (d.clone().as_builder().children_hash(Byte32::new(rand32(rng))).build(), "children_hash")
+}
+
+fn mutate_digest_once(rng: &mut Rng, d: &packed::HeaderDigest) -> (packed::HeaderDigest, &'static str) {
     match rng.below(6) {
         0 => {
             let td: U256 = d.total_difficulty().unpack();
